@@ -44,7 +44,15 @@ GRID = [
     ("htk.pcm16", "htk.c", "htk_open", "(SF_FORMAT_HTK|SF_FORMAT_PCM_16)", 0, 0, 256, {}),
     ("avr.pcm16", "avr.c", "avr_open", "(SF_FORMAT_AVR|SF_FORMAT_PCM_16)", 1, 0, 256, {}),
     ("mpc2k.pcm16", "mpc2k.c", "mpc2k_open", "(SF_FORMAT_MPC2K|SF_FORMAT_PCM_16)", 1, 0, 256, {"SR_MAX": 65535}),
+    # endian options: SF_ENDIAN_CPU / LITTLE / BIG where the container takes them
+    ("mat4cpu.pcm16", "mat4.c", "mat4_open", "(SF_FORMAT_MAT4|SF_FORMAT_PCM_16|SF_ENDIAN_CPU)", 1, 0, 256, {}),
+    ("mat4be.pcm16", "mat4.c", "mat4_open", "(SF_FORMAT_MAT4|SF_FORMAT_PCM_16|SF_ENDIAN_BIG)", 1, 0, 256, {}),
+    ("aucpu.pcm16", "au.c", "au_open", "(SF_FORMAT_AU|SF_FORMAT_PCM_16|SF_ENDIAN_CPU)", 1, 0, 256, {}),
+    ("aifcle.pcm16", "aiff.c", "aiff_open", "(SF_FORMAT_AIFF|SF_FORMAT_PCM_16|SF_ENDIAN_LITTLE)", 1, 0, 256, {"IS_AIFF": 1}),
+    ("wavcpu.pcm16", "wav.c", "wav_open", "(SF_FORMAT_WAV|SF_FORMAT_PCM_16|SF_ENDIAN_CPU)", 1, 0, 256, {}),
 ]
+# channel counts: 1, 2 and the library maximum (SF_MAX_CHANNELS = 1024) where the container's field can hold it
+MAXCH_TAGS = ("wav.pcm16", "aiff.pcm16", "au.pcm16", "w64.pcm16", "mat4.pcm16")
 
 # configurations measured to finish on the unchanged tree; the rest stay in the thorough tier until tuned
 MONO_ONLY = ("svx", "htk")
@@ -56,11 +64,15 @@ def rt_harnesses(update_now=False, only=None):
     for tag, cfile, openfn, fmt, exact, pad, cap, extra in GRID:
         if only and not any(o in tag for o in only):
             continue
-        for ch in (1, 2):
+        for ch in (1, 2, 1024):
             if ch == 2 and tag.split(".")[0] in MONO_ONLY:
+                continue
+            if ch == 1024 and tag not in MAXCH_TAGS:
                 continue
             for nfix in (0, 1, 2, 3, 1000):
                 if ch == 2 and nfix in (2, 1000):
+                    continue
+                if ch == 1024 and nfix != 1:
                     continue
                 if "probe" in tag and not (ch == 1 and nfix == 1):
                     continue
@@ -92,7 +104,7 @@ def rt_harnesses(update_now=False, only=None):
                                  checks="mem", fsa=cap + 80,
                                  include_env=("log_stub", "memfile", "memset_model", "snprintf_model", "libm_model"),
                                  timeout=1500 if tag.split(".")[0] in HEAVY else 240,
-                                 tiers=("thorough",) if (tag.split(".")[0] in HEAVY or not ((ch == 1 and nfix in (0, 1, 1000)) or (ch == 2 and nfix == 1))
+                                 tiers=("thorough",) if (tag.split(".")[0] in HEAVY or not ((ch == 1 and nfix in (0, 1, 1000)) or (ch in (2, 1024) and nfix == 1))
                                                          or (sr not in (None, 44100) and tag != "wav.pcm16")) else ("quick", "thorough"),
                                  kf=["aiffrate", "vocupd"], probe_for=("aiffrate" if "probe_aiffrate" in tag else "vocupd" if "probe_vocupd" in tag else None),
                                  functions=[openfn, cfile + " header writer/reader/close", "psf_binheader_writef", "psf_binheader_readf", "codec init"],
@@ -102,6 +114,9 @@ def rt_harnesses(update_now=False, only=None):
 
 
 HARNESSES = rt_harnesses()
+# block codec staging layer (K-block contract): IMA ADPCM, WAV and AIFF layouts
+HARNESSES += _load("blk_common").ima_harnesses(("SEL_WRITE",))
+
 META = {"assumptions": ["E-memfile with abstract data region", "handle state prepared as psf_open_file does (harness/include/preopen.h)",
                         "frames accepted are installed the way the public write wrappers leave them (C05)"],
         "outside": ["block codecs' frame rounding (B > 1)", "SD2 (resource fork), SDS, XI, WVE, TXW: not in the grid yet"]}
